@@ -97,6 +97,35 @@ let () =
     (try
       toks := Array.of_list (List.filter (fun s -> s <> "") (split_line line));
       pos := 0;
+      if !toks.(0) = "V" then begin
+        (* events mode:  V <lang> <n> node*   ->   EVS <canonical 0|1> <events of the tree, notation of the harness>
+           (canonical: root_canon with no embedded tree accepted) *)
+        ignore (next ());
+        let lid = next_n () in
+        let n = next_int () in
+        let roots = rep n p_node in
+        (match get_table main_table lid, roots with
+         | Some l, [root] ->
+           let canon = root_canon l (fun _ _ -> false) root in
+           let evs = events_of l root in
+           Buffer.clear buf;
+           let oh = function None -> "~" | Some b -> hex_of_bytes b in
+           List.iter (fun e -> match e with
+               | EvXmlDecl (v, e) -> add "X"; add (oh v); add (oh e)
+               | EvStartDoctype (nm, s, p) -> add "D"; add (hex_of_bytes nm); add (oh s); add (oh p)
+               | EvEndDoctype -> ()
+               | EvStartElement (nm, attrs, idx) ->
+                 add "S"; add (hex_of_bytes nm); addi (int_of_n idx); addi (List.length attrs);
+                 List.iter (fun (a, v) -> add (hex_of_bytes a); add (hex_of_bytes v)) attrs
+               | EvEndElement (nm, idx) -> add "E"; add (hex_of_bytes nm); addi (int_of_n idx)
+               | EvCharacters ch -> add "C"; add (hex_of_bytes ch)
+               | EvStartCdata -> add "["
+               | EvEndCdata -> add "]"
+               | EvPi (t, d) -> add "P"; add (hex_of_bytes t); add (hex_of_bytes d)) evs;
+           Printf.printf "EVS %d%s\n" (if canon then 1 else 0) (Buffer.contents buf)
+         | _ -> print_endline "EVS 0");
+        raise Exit
+      end;
       if !toks.(0) = "R" then begin
         (* replay mode:  R <nsub> {<doc hex> <answer>}* <events>   ->   Q <error> <skip_lvl> <depth> <pending> <charset> <lang> <n> node* *)
         ignore (next ());
